@@ -27,9 +27,13 @@ int    sim_ledger_live_for_tag (int tag, void **out, int max);
 int    sim_ledger_unreachable_live (int tag);        /* live, tagged (or any: -2), not reachable from library statics */
 void   sim_ledger_adopt (void *p, size_t n);        /* converter output handed to libeav */
 void   sim_ledger_retag (int from, int to);
+void   sim_ledger_roots_clear (void);         /* caller-owned live objects: roots for the reachability rule besides statics */
+void   sim_ledger_root_add (const void *p, size_t n);
+int    sim_ledger_state (void *p);            /* 0 unknown to the ledger, 1 allocated, 2 released */
+int    sim_ledger_unreachable_list (int tag, void **out, int max);
 void   sim_ledger_forget (int tag);    /* blocks of an object abandoned after an abort inside the library: no longer accounted */
 /* allocation fault: the at-th allocation (malloc/calloc/strdup/strndup) made by library code from now on returns NULL */
-extern int g_sim_af_at, g_sim_af_n, g_sim_af_fired;
+extern int g_sim_af_at, g_sim_af_n, g_sim_af_fired; extern size_t g_sim_af_sizes[4];
 uint64_t sim_ledger_allocs (void);
 uint64_t sim_ledger_frees (void);
 void  *sim_raw_malloc (size_t n);
